@@ -18,12 +18,14 @@ pub struct C03<K: SimKernel<D>, const D: usize> {
     pub max_single: usize,
     pub max_pairs: usize,
     pub max_kernel: usize,
-    twin: Option<(Dt<K, D>, usize, String)>,
+    /// faulted-and-failed clones kept alive; each must behave like the untouched original
+    twins: Vec<(Dt<K, D>, usize, String)>,
+    max_twins: usize,
 }
 
 impl<K: SimKernel<D>, const D: usize> C03<K, D> {
     pub fn new(thorough: bool) -> Self {
-        Self { max_single: if thorough { 400 } else { 96 }, max_pairs: if thorough { 24 } else { 6 }, max_kernel: if thorough { 160 } else { 40 }, twin: None }
+        Self { max_single: if thorough { 400 } else { 96 }, max_pairs: if thorough { 24 } else { 6 }, max_kernel: if thorough { 160 } else { 40 }, twins: Vec::new(), max_twins: if thorough { 4 } else { 3 } }
     }
 }
 
@@ -160,8 +162,9 @@ impl<K: SimKernel<D>, const D: usize> Monitor<K, D> for C03<K, D> {
             match out.kind {
                 OutKind::Err | OutKind::Skipped => {
                     let same = check_unchanged(ctx, pre, &c, &out, &faults, "state-changed-on-failure");
-                    if same && self.twin.is_none() && rng.chance(1, 3) {
-                        self.twin = Some((c, ctx.step, format!("{}@{}", f.0, f.1)));
+                    // at most one new twin per step, so that the twins stem from different calls
+                    if same && self.twins.len() < self.max_twins && self.twins.last().is_none_or(|t| t.1 != ctx.step) && rng.chance(1, 3) {
+                        self.twins.push((c, ctx.step, format!("{}@{}", f.0, f.1)));
                     }
                 }
                 OutKind::Panic => {
@@ -227,17 +230,22 @@ impl<K: SimKernel<D>, const D: usize> Monitor<K, D> for C03<K, D> {
             let faults = ctx.oprec.faults.clone();
             check_unchanged(ctx, pre, &dt, out, &faults, "state-changed-on-failure");
         }
-        // twin: apply the same op, compare outcome class and canonical state
-        if obj == 0
-            && let Some((twin, since, label)) = self.twin.as_mut()
-            && *since <= ctx.step
-        {
+        // twins: apply the same op, compare outcome class and canonical state
+        if obj != 0 {
+            return;
+        }
+        let mut drop_idx: Vec<usize> = Vec::new();
+        for ti in 0..self.twins.len() {
+            if self.twins[ti].1 > ctx.step {
+                continue;
+            }
             let plan = ctx.plan(&ctx.oprec.faults.clone());
+            let (twin, since, label) = &mut self.twins[ti];
             let tout = run_mutator(twin, &plan, &op);
             ctx.stats.executions += 1;
             ctx.stats.evaluations += 1;
             if tout.kind == OutKind::Unresolved && out.kind == OutKind::Unresolved {
-                return;
+                continue;
             }
             let tsnap = safe_snap(twin);
             let same_class = tout.class() == out.class();
@@ -260,8 +268,11 @@ impl<K: SimKernel<D>, const D: usize> Monitor<K, D> for C03<K, D> {
                         ),
                     ),
                 );
-                self.twin = None;
+                drop_idx.push(ti);
             }
+        }
+        for ti in drop_idx.into_iter().rev() {
+            self.twins.remove(ti);
         }
     }
 }
